@@ -732,10 +732,11 @@ def select__document_node_kind_test(self: XPathFunction, context: ta.ContextType
             if isinstance(item, DocumentNode):
                 yield item
     else:
-        elements = [e for e in self[0].select(copy(context)) if isinstance(e, ElementNode)]
-        if isinstance(context.item, DocumentNode):
-            if len(elements) == 1:
-                yield context.item
+        for item in context.iter_children_or_self():
+            if isinstance(item, DocumentNode):
+                elements = [e for e in self[0].select(copy(context)) if isinstance(e, ElementNode)]
+                if len(elements) == 1:
+                    yield item
 
 
 @method('document-node')
